@@ -7,6 +7,7 @@ import StamModel.Driver.St
 import StamModel.Driver.Tv
 import StamModel.Driver.Tp
 import StamModel.Driver.Ql
+import StamModel.Driver.Wj
 /-
   Line-protocol driver: one request per line on stdin, one answer per line on stdout.
   Built as the `stamdriver` executable (core Lean only).
@@ -25,6 +26,7 @@ def step (line : String) : String :=
   | "tv" :: args => tv args
   | "tp" :: args => tp args
   | "ql" :: args => ql args
+  | "wj" :: args => wj args
   | ["reset"] => "ok"
   | _ => "bad-op"
 
